@@ -303,3 +303,43 @@ Proof.
       * rewrite (str_val_none _ _ P Sv). unfold vpanic. rewrite (step_mset_badval _ _ _ _ _ _ _ P). apply vp_res_rel_refl.
     + rewrite (str_key_not_wt _ _ W Sk). unfold vpanic. rewrite (step_mset_badkey _ _ _ _ _ _ _ W). apply vp_res_rel_refl.
 Qed.
+
+(* ================================================================== List.AppendMutable *)
+(* [list_appendmutable_prog_stmt] is FALSE as stated: a dangling view that points one past the end of the heap, at a repeated field of
+   the message type being allocated, comes alive when `v := new(T)` is executed before `*x.list` is read. Counterexample
+   (one message type 0 with field 0 = repeated message 0, the empty heap, the view RField 0 0): Reflect.step answers ([], PPanic), the
+   interpreter stores the new object in its own field 0 and returns it. *)
+Definition am_sch : schema := [ {| m_fields := [ {| f_num := 1%N; f_ty := TMsg 0; f_shape := Rep false |} ]; m_oneofs := 0; m_impl := Pulsar |} ].
+Lemma list_appendmutable_prog_counterexample :
+  wf am_sch = true /\ rp_heap_okb am_sch [] = true /\ vp_op_okb [] (OLAppendMutable (PList (TMsg 0) (RField 0 0))) = true /\
+  ~ vp_agrees am_sch [] (OLAppendMutable (PList (TMsg 0) (RField 0 0))).
+Proof.
+  split; [vm_compute; reflexivity|]. split; [reflexivity|]. split; [reflexivity|].
+  unfold vp_agrees. intros [H _]. vm_compute in H. discriminate.
+Qed.
+Lemma list_appendmutable_prog_stmt_false : ~ list_appendmutable_prog_stmt.
+Proof.
+  intro H. destruct list_appendmutable_prog_counterexample as [W [K [_ N]]]. exact (N (H _ _ _ _ W K)).
+Qed.
+
+(* true whenever allocating does not revive the view: *)
+Lemma list_appendmutable_prog_gen : forall sch h t r, wf sch = true -> rp_heap_okb sch h = true ->
+  (forall m, t = TMsg m -> read_list h r = None -> read_list (h ++ [HObj (new_obj sch m)]) r = None) ->
+  vp_agrees sch h (OLAppendMutable (PList t r)).
+Proof.
+  intros sch h t r Hwf Hok Hd. unfold vp_agrees, vp_canon_step. cbn [vp_step canon_list vl_appendmut]. unfold run_view.
+  cbn [step]. destruct t as [k|m].
+  - cbn [vexec vstep1]. apply vp_res_rel_refl.
+  - cbn [vexec vstep1]. unfold halloc. cbn [set_new g_new]. rewrite Nat.eqb_refl. unfold on_list, vpanic.
+    destruct (read_list h r) as [l|] eqn:R.
+    + rewrite (read_list_app _ _ _ _ R). cbn [vexec vstep1 g_new]. apply vp_res_rel_refl.
+    + rewrite (Hd m eq_refl eq_refl). apply vp_res_rel_garbage.
+Qed.
+
+(* in particular for every live view (the invariant of the views a history hands out: vp_view_live_kept / vp_result_live) *)
+Lemma list_appendmutable_prog_partial : forall sch h t r, wf sch = true -> rp_heap_okb sch h = true ->
+  view_liveb h (PList t r) = true -> vp_agrees sch h (OLAppendMutable (PList t r)).
+Proof.
+  intros sch h t r Hwf Hok Hl. apply list_appendmutable_prog_gen; [exact Hwf|exact Hok|]. intros m _ R.
+  destruct (liveb_list _ _ _ Hl) as [->|[l R']]; [reflexivity|congruence].
+Qed.
